@@ -819,6 +819,10 @@ class OpsMixin:
                 return PList(seq[slice(c(lo), c(hi), c(stp))])
         if isinstance(base, Cst) and isinstance(base.value, str) and all(x is None or isinstance(x, Cst) for x in (lo, hi, stp)):
             return Cst(base.value[slice(c(lo), c(hi), c(stp))])
+        if isinstance(base, PList) and not base.sym_elem_of and hi is None and stp is None and isinstance(lo, Cst) and isinstance(lo.value, int) and lo.value >= 0:
+            k = lo.value
+            if len(base.items) >= k and all(not isinstance(i, (Rep, Splice)) for i in base.items[:k]):
+                return PList(list(base.items[k:]))
         desc = f"{'' if lo is None else c(lo)}:{'' if hi is None else c(hi)}" + ("" if stp is None else f":{c(stp)}")
         return StrOp("slice", [base, desc])
 
